@@ -39,8 +39,14 @@ Stats0 == [events |-> 0, subsets |-> 0, subsets_ok |-> 0, subsets_refused |-> 0,
 \* ---- Subset events ------------------------------------------------------------------
 \* the observation as the model's records, and the source's component function on the retained glyphs
 ObsRecs(e) == [n \in 1 .. Len(e.o.olds) |-> [old |-> e.o.olds[n], comps |-> e.o.out_comps[n]]]
+\* (glyphs without components are left out of the domain: TargetsOf answers <<>> for them; that keeps the map small
+\* for the lists of tens of thousands of ids that the size / count boundaries need)
 ObsTargets(e) ==
-  [o \in Range(e.o.olds) |-> e.o.src_comps[MinOf({n \in 1 .. Len(e.o.olds) : e.o.olds[n] = o})]]
+  LET P == {n \in 1 .. Len(e.o.olds) : e.o.src_comps[n] # <<>>} IN
+  [o \in {e.o.olds[n] : n \in P} |-> e.o.src_comps[MinOf({n \in P : e.o.olds[n] = o})]]
+\* Beyond this many glyphs the quadratic operators are not evaluated: MapsInverse follows from IsDistinct (NewId is the
+\* first position of an old id), and the order statistic (Dev_ClosureOrder) is not taken.
+BigList == 4096
 
 SubsetBad(e) ==
   IF ~e.o.ok THEN (IF e.o.panic THEN {"panic"} ELSE {})
@@ -51,16 +57,17 @@ SubsetBad(e) ==
           ELSE IF e.o.n_out < Len(ids) THEN {"glyph-count"}
           ELSE IF \E n \in 1 .. Len(olds) : olds[n] < 0 THEN {"glyph-not-pulled-in-by-anything"}
           ELSE IF e.a.kind # "glyf" THEN (IF olds = ids THEN {} ELSE {"glyph-count"})
-          ELSE LET tgs == ObsTargets(e)
-                   recs == ObsRecs(e)
+          ELSE LET tgs == TLCEval(ObsTargets(e))
+                   recs == TLCEval(ObsRecs(e))
+                   distinct == IsDistinct(olds)
                IN   (IF SubSeq(olds, 1, Len(ids)) = ids THEN {} ELSE {"requested-order"})
-               \cup (IF IsDistinct(olds) THEN {} ELSE {"duplicate-glyph"})
-               \cup (IF IsDistinct(olds) /\ Range(olds) = Closure(tgs, ids) THEN {} ELSE {"closure"})
+               \cup (IF distinct THEN {} ELSE {"duplicate-glyph"})
+               \cup (IF distinct /\ Range(olds) = Closure(tgs, ids) THEN {} ELSE {"closure"})
                \cup (IF ComponentsRenumbered(tgs, recs) THEN {} ELSE {"component-ids"})
-               \cup (IF IsDistinct(olds) => MapsInverse(recs) THEN {} ELSE {"maps"})
+               \cup (IF (distinct /\ Len(olds) <= BigList) => MapsInverse(recs) THEN {} ELSE {"maps"})
 
 \* Dev_ClosureOrder: is the order of the pulled-in glyphs the one of the model's machine?
-OrderAsModel(e) == Olds(GlyfRun(ObsTargets(e), Glyf0(e.a.ids)).recs) = e.o.olds
+OrderAsModel(e) == Len(e.o.olds) <= BigList /\ Olds(GlyfRun(ObsTargets(e), Glyf0(e.a.ids)).recs) = e.o.olds
 
 \* ---- Glyph events --------------------------------------------------------------------
 \* Outlines are compared as command sequences.  A `close` that closes nothing (first command, or right
